@@ -33,7 +33,32 @@ def handlers : List (String × (List Sexp → String)) := [
       let nm : Namer := { globalNs := ns, generated := gen.reverse }
       let (out, nm') := transform { ann, dirs } nm root
       let fresh := (nm'.generated.take (nm'.generated.length - gen.length)).reverse
-      pure (toString (Sexp.list [.atom "ok", stmtsToSexp out, Sexp.ofStrs fresh]))),
+      pure (toString (Sexp.list [.atom "ok", stmtsToSexp out, Sexp.ofStrs fresh, Sexp.ofBool (contractOk out)]))),
+  -- the Lean counterexample to `get (set)` replayed on the model's output for a concrete program: the store binds
+  -- every simple variable and lacks every composite entry
+  ("c03.getset", fun a => run do
+      let [tree, annos, ns, gen] := a | none
+      let root ← parseStmt tree
+      let ann ← parseAnnoTable annos
+      let dirs ← dirTable ann
+      let nm : Namer := { globalNs := ← strs? ns, generated := (← strs? gen).reverse }
+      let out := cfOutput { ann, dirs } nm root
+      let σ₀ : Store := fun q => match q with | .sym _ => some (.int 0) | _ => none
+      let rows := (emitted out).map fun o => match o with
+        | none => Sexp.atom "malformed"
+        | some c =>
+          match entries c with
+          | none => Sexp.atom "no-entries"
+          | some es =>
+            let changed := match getS es σ₀ with
+              | some vs => match assignSeq (es.map (·.qn)) vs σ₀ with
+                | some σ' => es.any fun e => match loc σ₀ e.qn with
+                    | some l => decide (σ' l ≠ σ₀ l)
+                    | none => false
+                | none => true
+              | none => false
+            Sexp.list [Sexp.ofStrs (nameStrs c), Sexp.ofBool (missingComposite c σ₀), Sexp.ofBool changed]
+      pure (toString (Sexp.list rows))),
   ("c03.check", fun a => run do
       let [tree] := a | none
       let g ← parseStmts tree
